@@ -117,6 +117,21 @@ theorem enumerate_alias (f : Int → Int) (l : List Int) :
 theorem empty_ranges : enumerateSteps 0 = [] ∧ reverseSteps 0 = [] := by
   constructor <;> decide
 
+/-- A loop that advances the iterator with post-increment sees exactly the same (index, element)
+pairs as the range-for loop. -/
+theorem post_increment_same (n : Nat) : enumeratePostSteps n = enumerateSteps n := by
+  unfold enumeratePostSteps enumerateSteps
+  generalize eBegin = it
+  generalize n + 1 = fuel
+  induction fuel generalizing it with
+  | zero => simp [eLoopPost, eLoop]
+  | succ fuel ih => simp [eLoopPost, eLoop, ePostInc, ih]
+
+/-- `enumerate(reverse(c))`: indices 0,1,2,… paired with the elements in reverse order. -/
+theorem enumerate_of_reverse (l : List Int) :
+    (seen l.reverse (enumerateSteps l.reverse.length)).map (·.2) = l.reverse.map some :=
+  enumerate_values l.reverse
+
 /-! Non-vacuity. -/
 example : seen [7, 8, 9] (enumerateSteps 3) = [(0, some 7), (1, some 8), (2, some 9)] := by decide
 example : (seen [7, 8, 9] (reverseSteps 3)).map (·.2) = [some 9, some 8, some 7] := by decide
